@@ -40,7 +40,7 @@ pub fn gen(rng: &mut Rng) -> SchedCase {
 		seed: rng.next_u64(),
 		warm: rng.usize_below(2),
 		callbacks: rng.urange(2, 6),
-		switch_prob: *rng.pick(&[0.1, 0.3, 0.6, 0.9]),
+		switch_prob: *rng.pick(&[0.03, 0.1, 0.3, 0.6, 0.9]),
 		nested: rng.chance(0.3),
 	}
 }
@@ -94,7 +94,8 @@ pub fn run(case: &SchedCase) -> CaseResult {
 					.play(
 						StaticSoundData {
 							sample_rate: 8000,
-							frames: vec![Frame::new(0.25, 0.25); 8].into(),
+							// a ramp, so that the first frame heard can be told from a later one
+							frames: (0..64).map(|i| Frame::from_mono(0.1 + 0.01 * i as f32)).collect::<Vec<_>>().into(),
 							settings: Default::default(),
 							slice: None,
 						}
@@ -107,8 +108,10 @@ pub fn run(case: &SchedCase) -> CaseResult {
 			}),
 		);
 	}
+	// every rendered sample, in order
+	let rendered: Arc<Mutex<Vec<f32>>> = Arc::new(Mutex::new(vec![]));
 	{
-		let (device, n) = (device.clone(), case.callbacks);
+		let (device, n, rendered) = (device.clone(), case.callbacks, rendered.clone());
 		sim.spawn_task(
 			"audio",
 			Role::Audio,
@@ -119,6 +122,7 @@ pub fn run(case: &SchedCase) -> CaseResult {
 					if let Some(p) = rep.panic {
 						panic!("{p}");
 					}
+					rendered.lock().unwrap().extend_from_slice(&out);
 					kira::verif::yield_point("audio.between_callbacks");
 				}
 			}),
@@ -138,8 +142,33 @@ pub fn run(case: &SchedCase) -> CaseResult {
 		if let Some(p) = rep.panic {
 			res.fail(Violation::new("finite", format!("audio-panic: {}", panic_signature(&p)), p));
 		}
+		rendered.lock().unwrap().extend_from_slice(&out);
 		if k == 2 {
 			audible = out.iter().all(|s| *s > 0.0);
+		}
+	}
+	// nothing of the sound is lost: the first frame ever heard is the sound's first frame
+	// (a track that rendered a callback without its listener consumes the sound in silence)
+	if res.violation.is_none() && !res.inconclusive {
+		let r = rendered.lock().unwrap();
+		let left: Vec<f32> = r.chunks(2).map(|f| f[0]).collect();
+		if let Some(f0) = left.iter().position(|s| *s != 0.0) {
+			if f0 + 1 < left.len() && left[f0 + 1] != 0.0 {
+				let ratio = left[f0 + 1] / left[f0];
+				if !((ratio - 1.1).abs() <= 1e-3) {
+					res.fail(Violation::new(
+						"needs-listener",
+						"sound-consumed-in-silence",
+						format!(
+							"the first frames heard from a sound (a ramp 0.10, 0.11, 0.12 ...) played on a spatial track created right after its listener are {} and {} (ratio {ratio:.4}, not 1.1): the track had already been consuming the sound in silence - it ran without the listener that was created before it",
+							left[f0],
+							left[f0 + 1]
+						),
+					));
+				} else {
+					res.hit("first_frame_heard_is_the_first_frame");
+				}
+			}
 		}
 	}
 	if res.violation.is_none() && !res.inconclusive && !audible {
